@@ -40,6 +40,8 @@ THEOREMS = [
     "JanetModel.Props.C18.gen_tables",
     "JanetModel.Props.C18.gen_keywords",
     "JanetModel.Props.C18.gen_threadStart",
+    "JanetModel.Props.C18.gen_mayGrow",
+    "JanetModel.Props.C18.benign_calls_keep_flags",
     "JanetModel.Props.C18.sandbox_enforced",
 ]
 WRAPPED = ("remove unlink rmdir chdir opendir getenv unsetenv rename link symlink system mkdir chmod utime stat stat64 lstat "
@@ -399,6 +401,7 @@ def run(ctx):
         return ctx.finish("proof", {"evaluations": 0, "distinct_nontrivial": 0})
     # (B,C) kernel
     broken += ctx.obligations("JanetModel.Props.C18", THEOREMS)
+    ctx.say("obligations: %d theorems built and audited%s" % (len(THEOREMS), "" if not broken else "; BROKEN: " + "; ".join(broken)[:300]))
     if not quick:
         ok, log = ctx.leanchecker("JanetModel.Props.C18")
         if not ok:
@@ -532,12 +535,15 @@ def run(ctx):
     }
     return ctx.finish("proof", cov, assumptions=[
         "LLVM IR at -O0 is a faithful account of the C call structure; indirect calls and calls of functions that may reach janet_sandbox are modelled as `havoc` (flag word may grow) and their targets are entry points themselves",
-        "the set `mayGrow` of functions outside the slice that may change the flag word is computed by the translator (not certificate-checked)",
+        "the set `mayGrow` of functions that may change the flag word is an untrusted summary checked by gen_mayGrow (closed under the transcribed direct-call edges and type-compatible indirect-call edges; contains every flag writer; excludes every callee the slice treats as no event); the edge list itself and LLVM-type compatibility of indirect calls are trusted transcription",
         "Cap.lean: which OS call needs which capability; exemptions ts_now/clock_gettime, janet_cryptorand/open(/dev/urandom), os_execute_impl/environ; operations on handles that already exist (accept, read, write, waitpid, kill) are not acquisitions",
         "open(2): the flags variable is tracked statically (access mode, O_CREAT, O_TRUNC; Linux constants in Cap.lean) and the matching capability is required per path; the sweep checks that observed modes are among the certified ones",
         "fopen: io.c checkflags' result variable (JANET_FILE_* bits) is tracked statically and the matching capability is required where it is handed back (w+ = write-kind, a+ = read and write); that libc parses the same string the same way is trusted and compared with observed mode strings",
-        "other argument-dependent calls (dlopen, getaddrinfo, bind): statically some capability of the group is asserted on every path; the right one for the arguments is checked dynamically only",
-        "havoc nodes = interpreter runs (Ex in Model.lean): indirect calls reach only entry points of the graph, functions outside the slice, or janet_sandbox; every address-taken function of the slice is an entry point (by construction of the translator)",
+        "argument-dependent calls: dlopen/dlsym/getaddrinfo/bind require the capability of the enclosing C function's role (Cap.siteRole, reviewed table; an unlisted site must have asserted every candidate), janet_get_addrinfo's getaddrinfo follows its constant `passive` argument (Op.call g m0); the sweep checks the same per observed call by binding",
+        "havoc nodes = interpreter runs (Ex in Model.lean): indirect calls reach only address-taken functions (C semantics, trusted); those inside the slice are entry points (gen_entries: independent scan of the IR text vs the checked entry list, kernel-evaluated; sandbox_enforced_addr is stated for the entry list defined from that scan); those outside reach sensitive calls only through further indirect calls or janet_sandbox",
+        "a janet_sandbox_assert argument that is a local built from constants / `p ? A : B` is tracked (assertMd, modeUpd, modeGuard); any other non-constant argument is an ExtractError (broken tie)",
+        "thread start: the regenerated shape (gen_threadStart) says every hand-over of janet_go_thread_subr passes the current flag word and the new thread stores it after janet_init; pthread scheduling and the message copy in janet_ev_threaded_call are trusted",
+        "sandboxCfun is a hand-written model of corelib.c janet_core_sandbox; tie = regenerated sandbox_options[] (gen_tables) + keyword-sequence scenarios vs driver kwseq",
     ])
 
 
